@@ -697,9 +697,8 @@ func init() {
 		Name:  "R-DUMB-WRITE-CANCELLABLE",
 		Props: []string{"C12"},
 		Min:   2,
-		Doc: "a cancelled transfer stops moving bytes (F79): sendDumbDataWriter takes no context, so every call of it in internal/app writes either to a stream opened with the transfer's context on a connection (whose closer the scheduler holds), " +
-			"or to a connection for which every path to the call has passed context.AfterFunc(<the function's context>, <a function that closes that connection>) - " +
-			"with --dumb-tcp a receiver that left was marked failed and its slot given away while its stream went on: two transfers with --max-receivers 1",
+		Doc: "a cancelled transfer stops moving bytes (F79, F82): sendDumbDataWriter takes no context, so for every call of it in internal/app every path to the call has passed context.AfterFunc(<the function's context>, <a function that closes the writer, " +
+			"or the connection the writer's stream was opened on>) - with --dumb-tcp, and with --dumb over more than one connection (the scheduler's closer reaches the first only), a receiver that left was marked failed and its slot given away while its streams went on: two transfers with --max-receivers 1",
 		Run: runDumbWriteCancellable,
 	})
 }
@@ -752,23 +751,25 @@ func runDumbWriteCancellable(c *Ctx) {
 				c.Bad(key, call.Pos(), f.Name+" hands sendDumbDataWriter a writer the checker cannot name, or has no context parameter: nothing can stop the write when the transfer is cancelled")
 				return
 			}
-			// a stream opened with the context
-			viaStream := false
+			// the writer, or the connection its stream was opened on
+			targets := map[types.Object]bool{w: true}
 			for _, d := range resolveExprs(f, call.Args[0], 2) {
 				if oc, ok := ast.Unparen(d).(*ast.CallExpr); ok {
-					if sel, ok := ast.Unparen(oc.Fun).(*ast.SelectorExpr); ok && sel.Sel.Name == "OpenStream" && len(oc.Args) == 1 && ObjOf(info, oc.Args[0]) == ctxObj {
-						viaStream = true
+					if sel, ok := ast.Unparen(oc.Fun).(*ast.SelectorExpr); ok && sel.Sel.Name == "OpenStream" {
+						if co := rootObj(info, sel.X); co != nil {
+							targets[co] = true
+						}
 					}
 				}
 			}
-			if viaStream {
-				c.OK(key, call.Pos(), "writes to a stream opened with the transfer's context")
-				return
-			}
 			spec := &PassSpec{Name: "closer", SkipDefer: true, Vias: []Via{{Call: func(g *FuncInfo, c2 *ast.CallExpr) (string, bool) {
 				if calleeIs(info, c2, "context", "AfterFunc") && len(c2.Args) == 2 && ObjOf(info, c2.Args[0]) == ctxObj {
-					if lit, ok := ast.Unparen(c2.Args[1]).(*ast.FuncLit); ok && closes(lit, w) {
-						return "closer", true
+					if lit, ok := ast.Unparen(c2.Args[1]).(*ast.FuncLit); ok {
+						for t := range targets {
+							if closes(lit, t) {
+								return "closer", true
+							}
+						}
 					}
 				}
 				return "", false
